@@ -718,6 +718,15 @@ def enc(r, v, sc):
         return bytes(b ^ key[i % len(key)] for i, b in enumerate(body))
     if k == "ProcessRotateLeft":
         return rotl(enc(a[2], v, sc), -ev(a[0], sc), ev(a[1], sc))
+    if k == "OffsettedEnd":
+        return enc(a[1], v, sc)
+    if k == "Compressed":
+        import zlib, bz2
+        if a[1] not in ("zlib", "bzip2"):
+            raise ModelGap("codec " + a[1])
+        # the inner construct is built as a format of its own; the entries of the enclosing scope are handed over as keyword context
+        body = enc(a[0], v, top_scope(dict_public(sc)))
+        return (zlib.compress(body) if len(a) < 3 or a[2] is None else zlib.compress(body, a[2])) if a[1] == "zlib" else (bz2.compress(body) if len(a) < 3 or a[2] is None else bz2.compress(body, a[2]))
     raise ModelGap(k)
 
 
@@ -1225,6 +1234,25 @@ def dec(r, buf, pos, end, sc):
     if k == "ProcessRotateLeft":
         data = rotl(buf[pos:end], ev(a[0], sc), ev(a[1], sc))
         v, _ = dec(a[2], data, 0, len(data), sc)
+        return v, end
+    if k == "OffsettedEnd":
+        # the inner construct is confined to everything up to (end of the enclosing region + the negative offset); the stream then
+        # stands at that point whatever the inner construct consumed
+        off = ev(a[0], sc)
+        lim = end + off
+        if off > 0 or lim < pos:
+            raise Reject("short", "end offset before the current position")
+        v, _ = dec(a[1], buf, pos, lim, sc)
+        return v, lim
+    if k == "Compressed":
+        import zlib, bz2
+        if a[1] not in ("zlib", "bzip2"):
+            raise ModelGap("codec " + a[1])
+        try:
+            body = (zlib if a[1] == "zlib" else bz2).decompress(bytes(buf[pos:end]))
+        except Exception:
+            raise Reject("codec", "not a %s stream" % a[1])
+        v, _ = dec(a[0], body, 0, len(body), top_scope(dict_public(sc)))
         return v, end
     raise ModelGap(k)
 
